@@ -24,12 +24,12 @@ RULE = ("modes: exact (identity orientation, template voxels on tomogram voxels:
         "elsewhere, mass equal, loader returns the template), additive (molecule/component permutations and "
         "splits give the same volume), clip (simulate(S,pos) == simulate(S+2p,pos+p)[p:-p] for poses straddling or "
         "outside faces), general (analytic particle at a random pose: centre of mass within 0.05 px, values within "
-        "2%/25% of the peak for order 3/1, loader returns the template), proj (simulate_2d == z-sum of simulate), "
+        "4.5%/30% of the peak for order 3/1 (cubic-spline interpolation of sigma 1.1-1.4 blobs reaches 3.3%), loader returns the template), proj (simulate_2d == z-sum of simulate), "
         "aproj (tilt series and arbitrary projection planes of cubic simulators == analytic projection of the planted "
         "Gaussian particles, 3 % of the peak), color (coloured simulation of order-0/1 simulators == colour-weighted sum "
         "of single-molecule simulations); "
         "non-trivial = >= 2 molecules or a non-grid pose; distinct by (mode, case seed)")
-TOLERANCES = {"exact_rel": 2e-5, "com_px": 0.05, "general_order3_rel": 0.03, "general_order1_rel": 0.3,
+TOLERANCES = {"exact_rel": 2e-5, "com_px": 0.05, "general_order3_rel": 0.045, "general_order1_rel": 0.3,
               "proj_rel": 2e-4, "aproj_rel": 0.03, "color_rel": 2e-5}
 MIN_DECIDED = {"quick": 1500, "thorough": 30000}
 
